@@ -150,6 +150,31 @@ def run_binary(ctx, pt):
         res('mul', lambda: A * Bv, ((a * b) & ((1 << m) - 1), m))
         res('concat', lambda: A // Bv, (a | (b << m), m + k))
         res('concat-split', lambda: [val(z) for z in ((A // Bv)[0:m], (A // Bv)[m:m + k])], [(a, m), (b, k)])
+        # the augmented spellings: the name is rebound to the result, every other reference to the old left operand
+        # (another name, a list slot) and the right operand keep their values
+        import operator as _op
+        for nm, f, exp in (('iadd', _op.iadd, ((a + b) & Mw, w)), ('isub', _op.isub, ((a - b) & Mw, w)), ('iand', _op.iand, (a & b, w)), ('ior', _op.ior, (a | b, w)),
+                           ('ixor', _op.ixor, (a ^ b, w)), ('imul', _op.imul, ((a * b) & ((1 << m) - 1), m)), ('ifloordiv', _op.ifloordiv, (a | (b << m), m + k))):
+            X = B(m, a)
+            held = [X, X]
+            alias = X
+            r = ctx.attempt(f, X, Bv)
+            ctx.eq('C08/augmented-%s' % nm, val(r[1]) if r[0] == 'ok' else r, exp)
+            ctx.ok('C08/augmented-%s/another-reference-to-the-left-operand-changed' % nm,
+                   (alias.ival, alias.size, held[0].ival, held[1].size, Bv.ival, Bv.size) == (a, m, a, m, b, k), (alias.ival, alias.size, Bv.ival, Bv.size))
+            if k == b.bit_length() and nm in ('iadd', 'isub', 'iand', 'ior', 'ixor'):
+                X = B(m, a)
+                alias = X
+                wi = max(m, k)
+                r = ctx.attempt(f, X, b)
+                ctx.ok('C08/augmented-%s/another-reference-to-the-left-operand-changed' % nm, (alias.ival, alias.size) == (a, m), (alias.ival, alias.size))
+        for nm, f, sh in (('ilshift', _op.ilshift, True), ('irshift', _op.irshift, False)):
+            if k <= 3:
+                X = B(m, a)
+                alias = X
+                r = ctx.attempt(f, X, b)
+                ctx.eq('C08/augmented-%s' % nm, val(r[1]) if r[0] == 'ok' else r, (((a << b) & ((1 << m) - 1)) if sh else (a >> b), m))
+                ctx.ok('C08/augmented-%s/another-reference-to-the-left-operand-changed' % nm, (alias.ival, alias.size) == (a, m), (alias.ival, alias.size))
         if m == k:
             res('eq', lambda: A == Bv, a == b)
             res('ne', lambda: A != Bv, a != b)
@@ -466,7 +491,7 @@ def subchecks():
         Sub('unary', pts_unary, run_unary, engine='D',
             bound='every vector of width 0..8 (thorough 0..10): neg, invert, shifts 0..n+1, rotations 0..n, split(k) k=1..n+1, extensions to 0..n+3'),
         Sub('binary', pts_binary, run_binary, engine='D',
-            bound='every ordered pair of vectors of widths 0..7 (thorough 0..9): + - & | ^ * // == != hd, int operand on either side'),
+            bound='(augmented spellings += -= &= |= ^= *= //= <<= >>= included: other references to the left operand keep their value) every ordered pair of vectors of widths 0..7 (thorough 0..9): + - & | ^ * // == != hd, int operand on either side'),
         Sub('index', pts_index, run_index, engine='D',
             bound='every vector of width 0..5 (thorough 0..6): every in-range int index, every slice start/stop in {None,-n-1..n+1} step in {None,1,2,3,-1,-2}, every index list of length<=3; reads, and writes of every fitting value'),
         Sub('wide', pts_wide, run_wide, engine='P',
